@@ -3,7 +3,7 @@
 # The evidence file of the clean tree is put back afterwards (evidence must describe a run on /repo as committed).
 seed=$1; id=$2; tier=${3:-quick}
 cd /repo && git diff --quiet || { echo "/repo is dirty"; exit 2; }
-git -C /repo apply /verif/seeded/$seed/patch.diff || exit 2
+if [ -f /verif/seeded/$seed/patch.rebased.diff ]; then git -C /repo apply /verif/seeded/$seed/patch.rebased.diff || exit 2; else git -C /repo apply /verif/seeded/$seed/patch.diff || exit 2; fi
 cp /verif/evidence/$id.json /tmp/evidence-$id.keep 2>/dev/null
 cd /verif && ./check $id --tier $tier 2>&1 | grep -v "^WARNING" | grep -E "VIOLATION|^\[" | head -8
 git -C /repo checkout -- .
